@@ -17,6 +17,11 @@ import M3d.Model.ConcQuery
   (`query_field_scratch_racy`, `query_local_scratch_eq_sequential`).
 * `c13 cachesearch claim|memo` — the same for two callers of the cached function
   (`cache_claim_first_racy`, `cache_memo_returns_fx`).
+* `c13 collsearch aliased|own` — all complete schedules of two `ReduceConcurrentMap` workers that
+  collect 10 and 20 in per-goroutine buffers cut out of one shared backing array / in arrays of
+  their own, and append them to the shared result under the mutex: a witness (data race or a
+  result different from 30) or `ok schedules=<k>` (`collect_aliased_buffers_racy`,
+  `collect_reduce_correct`).
 * `c13 updsearch` / `c13 redsearch` — the two-thread witnesses for the unsynchronised
   `updateAt` and the reduction without lock.
 -/
@@ -97,6 +102,16 @@ def handleAll (ws : List String) : Option String :=
           let c := run p Config.init s
           some (s!"witness schedule={showSched s} races={c.races.length} answers=" ++
             ",".intercalate ((List.range 2).map fun t => toString (ans c t)) ++ s!" f(x)+1={v}")
+      | none => some s!"ok schedules={countSchedules p 2 12 Config.init}"
+  | ["collsearch", kind] =>
+      let base : Tid → Val := if kind == "aliased" then fun _ => 0 else fun t => t
+      let p : Program := collectProgN (· + ·) base (fun t => 10 * (t + 1)) 2
+      let wrong : Config → Bool := fun c => c.mem CACC != 30
+      let bad : Config → Bool := fun c => !c.races.isEmpty || wrong c
+      match (findSchedule p 2 wrong 12 Config.init).orElse fun _ => findSchedule p 2 bad 12 Config.init with
+      | some s =>
+          let c := run p Config.init s
+          some s!"witness schedule={showSched s} races={c.races.length} result={c.mem CACC} sequential=30"
       | none => some s!"ok schedules={countSchedules p 2 12 Config.init}"
   | ["updsearch"] =>
       let p : Program := fun t => if t < 2 then updateAtRacy ([5, 3].getD t 0) else []
